@@ -569,12 +569,12 @@ func allPlans(rngFor func(name string) *rand.Rand, thorough bool, tab map[string
 	out = append(out, pickStrata(rngFor("images"), g.famImages(), q.images)...)
 	out = append(out, g.famDefaults()...)
 	{
-		// every (filter, predictor) x shape x site cell once beyond the limit in the thorough tier (1008 cells),
+		// every (filter, predictor) x shape x site cell once beyond the limit in the thorough tier (1008 cells, 936 of them with such a case),
 		// every (filter, predictor family) pair at stream level and in a document in the quick tier (18 cells)
 		beyond, within, huge := g.famPredPipes(rngFor("predpipe"))
 		qb, qw, qh := 18, 9, 6
 		if thorough {
-			qb, qw, qh = 1008, 504, 84
+			qb, qw, qh = 936, 126, 42 // 936 = the cells that have a case beyond the limit (DecodeLengthWithLimit bounds a last-stage bomb by the requested length)
 		}
 		out = append(out, pickStrata(rngFor("predpipe-beyond"), beyond, qb)...)
 		out = append(out, pickStrata(rngFor("predpipe-within"), within, qw)...)
